@@ -151,21 +151,27 @@ M C10 extract-keeps-bank buffer.go '	rb := d.rb
 	return rb' '	return d.rb'
 M C10 alloc-without-clear buffer.go '	typedmemclr(rt.ptyp, ptr)
 	return ptr' '	return ptr'
-M C10 close-keeps-len buffer.go '		t := &rb.types[i]
-		t.len = 0' '		t := &rb.types[i]
-		if t.size > 64 {
-			t.len = 0
-		}'
+M C10 readfile-no-clear file.go '			typedmemclr(rtyp, p)
+			if err := codec.Read(br, p); err != nil {' '			if err := codec.Read(br, p); err != nil {'
 M C10 sdata-reset-on-extract buffer.go '	rb := d.rb
 	d.rb = newResourceBank()
 	return rb' '	rb := d.rb
 	d.rb = newResourceBank()
 	d.rb.sData = rb.sData[len(rb.sData):]
 	return rb'
-M C10 alloc-growth-reuses-array buffer.go '		rt.array = unsafe_NewArray(rt.ptyp, newCap)
-		rt.cap = newCap' '		rt.array = unsafe_NewArray(rt.ptyp, newCap)
-		rt.cap = newCap
-		rt.len = 0'
+M C10 alloc-wraps-when-full buffer.go '	if rt.len == rt.cap {
+		newCap := rt.cap * 2' '	if rt.len == rt.cap && rt.cap >= 64 {
+		rt.len = 0
+	}
+	if rt.len == rt.cap {
+		newCap := rt.cap * 2'
+M C10 close-on-callback-error file.go '			if err := cb(p, br.ExtractResourceBank()); err != nil {
+				return err
+			}' '			rb := br.ExtractResourceBank()
+			if err := cb(p, rb); err != nil {
+				rb.Close() // do not leak the resources
+				return err
+			}'
 # ---- C11
 M C11 revert-D3 map.go '		*(*unsafe.Pointer)(p) = unsafe.Pointer(reflect.MakeMap(m.rtype).Pointer())' '		*(*unsafe.Pointer)(p) = unsafe.Pointer(reflect.MakeMap(m.rtype).Pointer())
 		_ = 0' map.go '	return r.Alloc(m.rtype)' '	return unsafe.Pointer(reflect.MakeMap(m.rtype).Pointer())'
